@@ -239,3 +239,73 @@ class Interp1dStub:
 def interp_patches():
     m = importlib.import_module("dreye.api.domain")
     return [(m, "interp1d", Interp1dStub)]
+
+
+# ----------------------------------------------------------------------------- quadprog
+
+QP_CALLS = []
+
+
+def solve_qp_stub(G, a, C=None, b=None, meq=0, factorized=False):
+    """quadprog.solve_qp contract (Goldfarb-Idnani): returns argmin 1/2 x^T G x - a^T x  s.t.  C^T x >= b (first meq rows equalities);
+    factorized=True means the first argument is R^-1 with G = R^T R.  The solution is a fresh point with the constraints assumed; the
+    optimality clause is used by the harness through explicit instances (QP_CALLS)."""
+    G = np.asarray(G); a = np.asarray(a); C = np.asarray(C); b = np.asarray(b)
+    n = len(a)
+    if factorized:
+        Rinv = symnp._exactify(G)
+        Gm = symnp.linalg_inv(np.asarray(Rinv) @ np.asarray(Rinv).T) if not _is_identity(Rinv) else Rinv
+    else:
+        Gm = symnp._exactify(G)
+    e = E()
+    k = len(QP_CALLS)
+    x = np.empty(n, dtype=object)
+    for i in range(n):
+        x[i] = S(z3.Real(f"qp!{k}_{i}"))
+    x = x.view(SymArray)
+    Cm = symnp._exactify(C); bv = symnp._exactify(b)
+    cons = []
+    for j in range(Cm.shape[1]):
+        lhs = z3.Sum([lift(Cm[i, j]) * x[i].t for i in range(n)])
+        cons.append(lhs == lift(bv[j]) if j < meq else lhs >= lift(bv[j]))
+    e.assume(z3.And(cons) if cons else z3.BoolVal(True))
+    QP_CALLS.append(dict(G=Gm, a=symnp._exactify(a), C=Cm, b=bv, meq=meq, x=x))
+    return x, None, None, None, None, None
+
+
+def _is_identity(M):
+    M = np.asarray(M)
+    if M.ndim != 2 or M.shape[0] != M.shape[1]:
+        return False
+    for i in range(M.shape[0]):
+        for j in range(M.shape[1]):
+            v = z3.simplify(lift(M[i, j]))
+            if not z3.is_rational_value(v) or v.numerator_as_long() != (v.denominator_as_long() if i == j else 0):
+                return False
+    return True
+
+
+def qp_objective(rec, x):
+    """1/2 x^T G x - a^T x of a recorded call at point x"""
+    G, a = np.asarray(rec["G"]), np.asarray(rec["a"])
+    n = len(a)
+    t = 0
+    for i in range(n):
+        for j in range(n):
+            t = t + lift(G[i, j]) * lift(x[i]) * lift(x[j]) / 2
+        t = t - lift(a[i]) * lift(x[i])
+    return t
+
+
+def qp_feasible(rec, x):
+    Cm, bv, meq = np.asarray(rec["C"]), np.asarray(rec["b"]), rec["meq"]
+    cons = []
+    for j in range(Cm.shape[1]):
+        lhs = z3.Sum([lift(Cm[i, j]) * lift(x[i]) for i in range(len(x))])
+        cons.append(lhs == lift(bv[j]) if j < meq else lhs >= lift(bv[j]))
+    return z3.And(cons) if cons else z3.BoolVal(True)
+
+
+def qp_patches():
+    m = importlib.import_module("dreye.api.project")
+    return [(m, "solve_qp", solve_qp_stub), (m, "ConvexHull", ConvexHullStub), (m, "Delaunay", DelaunayStub)]
